@@ -1003,44 +1003,17 @@ class CSSMatch(_DocumentNav):
 
             # We can only adjust bounds within a variable index
             if var:
-                # Abort if our nth index is out of bounds and only getting further out of bounds as we increment.
-                # Otherwise, increment to try to get in bounds.
-                adjust = None
-                while idx < 1 or idx > last_index + 1:
-                    if idx < 1:
-                        diff_low = 0 - idx
-                        if adjust is not None and adjust == 1:
-                            break
-                        adjust = -1
-                        count += count_incr
-                        idx = last_idx = a * count + b if var else a
-                        diff = 0 - idx
-                        if diff >= diff_low:
-                            break
-                    else:
-                        diff_high = idx - last_index
-                        if adjust is not None and adjust == -1:
-                            break
-                        adjust = 1
-                        count += count_incr
-                        idx = last_idx = a * count + b if var else a
-                        diff = idx - last_index
-                        if diff >= diff_high:
-                            break
-                        diff_high = diff
-
-                # If a < 0, our count is working backwards, so floor the index by increasing the count.
-                # Find the count that yields the lowest, in bound value and use that.
-                # Lastly reverse count increment so that we'll increase our index.
-                lowest = count
-                if a < 0:
-                    while idx >= 1:
-                        lowest = count
-                        count += count_incr
-                        idx = last_idx = a * count + b if var else a
+                # Jump straight to the first count whose index can be in bounds; stepping there one count at a time
+                # takes time proportional to the magnitude of `b` (`:nth-child(-n+4000000000)`).
+                if a > 0 and idx < 1:
+                    # Index grows with the count: smallest count with an index of at least one.
+                    count = (a - b) // a
+                elif a < 0 and idx >= 1:
+                    # Index shrinks as the count grows: start at the largest count whose index is still at least one
+                    # (the lowest index) and reverse the count increment so that we'll increase our index.
+                    count = (b - 1) // -a
                     count_incr = -1
-                count = lowest
-                idx = last_idx = a * count + b if var else a
+                idx = last_idx = a * count + b
 
             # Evaluate elements while our calculated nth index is still in range
             while 1 <= idx <= last_index + 1:
